@@ -2,7 +2,7 @@
 ambient perturbation and prints {"<config>#<seed>": digest} as JSON on the last stdout line.
 
 usage: python -m vf.c07_child <mode> <seeds comma separated>
-mode: plain | perturb_a | perturb_b | prior_run | twice | reuse | trap | logger_none | logger_base | logger_saver"""
+mode: plain | perturb_a | perturb_b | prior_run | twice | reuse | trap | logger_none | logger_base | logger_saver | logger_peek"""
 import copy
 import glob
 import hashlib
@@ -112,6 +112,56 @@ class RecLogger(Logger):
                 if k == "market":
                     d.update(t=o.get_time(), p=repr(o.get_market_price()), f=repr(o.get_fundamental_price()))
         CUR.update(("D" + type(log).__name__ + json.dumps(d, sort_keys=True)).encode())
+        super().write_and_direct_process(log)
+
+
+class PeekLogger(RecLogger):
+    """a logger that looks around whenever it is handed a record: read-only queries (current and past values of every
+    market, its book, and -- in configurations without fundamental shocks -- the fundamental generator some 150 steps
+    ahead, which the generator's own API permits) must not change what happens"""
+    lookahead = True
+
+    def _peek(self, log):
+        sim = getattr(log, "simulator", None)
+        if sim is None:
+            mk = getattr(log, "market", None)
+            sim = getattr(mk, "simulator", None)
+        if sim is None:
+            sim = getattr(self, "_sim", None)
+        if sim is None:
+            return
+        self._sim = sim
+        def q(f, *a):
+            try:
+                f(*a)  # a query refused at this moment (e.g. in the middle of a clock advance) is not a change
+            except Exception:  # noqa
+                pass
+        for m in sim.markets:
+            t = m.get_time()
+            if t < 0:
+                continue
+            for g in ("get_market_price", "get_mid_price", "get_best_buy_price", "get_best_sell_price", "get_fundamental_price",
+                      "get_last_executed_price", "get_executed_volume", "get_vwap", "get_buy_order_book", "get_sell_order_book"):
+                q(getattr(m, g))
+            q(m.get_market_prices, range(0, t + 1))
+            q(m.get_fundamental_prices, range(0, t + 1))
+            if hasattr(m, "get_index"):
+                q(m.get_index)
+                q(m.get_fundamental_index)
+                q(m.get_index, 0)
+            elif self.lookahead:
+                q(sim.fundamentals.get_fundamental_price, m.market_id, t + 150)
+        for a in sim.agents:
+            q(a.get_cash_amount)
+            for mid in list(a.asset_volumes):
+                q(a.get_asset_volume, mid)
+
+    def write(self, log):
+        self._peek(log)
+        super().write(log)
+
+    def write_and_direct_process(self, log):
+        self._peek(log)
         super().write_and_direct_process(log)
 
 
@@ -259,7 +309,11 @@ def run_one(cfg, seed, settings_obj=None):
     CUR = hashlib.sha256()
     settings = settings_obj if settings_obj is not None else copy.deepcopy(cfg)
     before = copy.deepcopy(settings)
-    lg = {"rec": RecLogger, "none": lambda: None, "base": Logger, "saver": MarketStepSaver}[LOGGER]()
+    lg = {"rec": RecLogger, "none": lambda: None, "base": Logger, "saver": MarketStepSaver, "peek": PeekLogger}[LOGGER]()
+    if LOGGER == "peek":
+        # a fundamental shock rewinds the generator to the shock time, so anything generated ahead of it is drawn
+        # again: looking far ahead is then not a read-only act even on the unchanged tree (and outside this property)
+        lg.lookahead = not any(isinstance(v, dict) and v.get("class") in ("FundamentalPriceShock", "UserEffectEvent") for v in cfg.values())
     r = SequentialRunner(settings, random.Random(seed), lg)
     r.class_register(ExtendedMarket)
     r.class_register(UserDefinedFCNAgent)
